@@ -252,6 +252,13 @@ func BytesLen(name string, n int) []byte { return make([]byte, n) }
 // values) instead of printing a placeholder. Needed only where formatted text is parsed back.
 func ExactFmt(on bool) {}
 
+// Log prints a debugging line (engine: only with GOSYM_LOG set).
+func Log(format string, args ...interface{}) {
+	if os.Getenv("VRT_LOG") != "" {
+		fmt.Fprintf(os.Stderr, "vrt.Log: "+format+"\n", args...)
+	}
+}
+
 // Tier is 0 for the quick tier and 1 for the thorough tier.
 func Tier() int { load(); return rf.Tier }
 
@@ -281,6 +288,7 @@ func Cleanup() {
 // Scheduler controls (no-ops natively; native replay of schedules goes through hooks).
 func SchedMode(maxPreempt int) {}
 func EagerSpawn(on bool)       {}
+func ExploreOrder(on bool)     {}
 func Drain()                   {}
 func Yield(label string)       {}
 func DeadlockIsViolation()     {}
